@@ -272,6 +272,9 @@ def install(reg):
         x = args[0]
         if isinstance(x, VRef):
             h = p.heap[x.rid]
+            if isinstance(h, HList) and "listdir_of" in h.tag and getattr(p.reg, "sorted_listdir_value", None):
+                # sorted(os.listdir(d)) is a function of the directory: the spec functions over the sorted listing name the same sequence
+                return p.reg.sorted_listdir_value(p, h.tag["listdir_of"])
             if isinstance(h, HList):
                 src = h.tag.get("items_of")
                 res = HList(seq=p.fresh("sorted", PVSEQ))
